@@ -55,7 +55,7 @@ fn check(c: &BaseCase, obs: &mut Obs) -> Verdict {
     let mut rows2 = pre.clone();
     rows2.extend(l.rows.iter().cloned());
     let files2 = vec![("opening.csv".to_string(), crate::gen::to_csv(&pre)), files[0].clone()];
-    let o2 = RunOpts { symbol_base: vec![], usd_years: o1.usd_years, date_fmt: None };
+    let o2 = RunOpts { symbol_base: vec![], usd_years: o1.usd_years, date_fmt: None, stale_cache_until: None };
     let r1 = match run_render(&files, &o1, true, c.costs) { Ok(r) => r, Err(RunErr::Panic(p)) => return classify_panic(&p, csv), Err(RunErr::Run(e)) => return Verdict::Skip(format!("run-error:{}", e.split_whitespace().take(3).collect::<Vec<_>>().join("_"))), Err(RunErr::BadInit(e)) => return Verdict::Fail(format!("well-formed opening positions rejected: {e} ({:?})", o1.symbol_base)) };
     let r2 = match run_render(&files2, &o2, true, c.costs) { Ok(r) => r, Err(RunErr::Panic(p)) => return classify_panic(&p, csv), Err(RunErr::Run(e)) => return Verdict::Fail(format!("run with prepended purchases fails ({e}) while the -b run succeeds\n{csv}")), Err(RunErr::BadInit(e)) => return Verdict::Fail(e) };
     let (s1, mut s2) = (Snap::of(&r1.res).normalized(), Snap::of(&r2.res).normalized());
